@@ -769,8 +769,12 @@ var selfOps = []string{"List.AppendValues", "List.InsertValues", "List.SetValues
 	"Catalog.GetValues(GetKeys)", "Stack.from-self", "Queue.from-self"}
 
 func genSelfCase(s core.Source) selfCase {
-	c := selfCase{Op: core.Pick(s, selfOps, "op"), Size: s.Choose(5, "size")}
-	c.Arg = s.Choose(c.Size+1, "arg")
+	// sizes 0..4, and sizes on both sides of 16, 64 and 128 (where an implementation may switch strategy)
+	c := selfCase{Op: core.Pick(s, selfOps, "op"), Size: []int{0, 1, 2, 3, 4, 16, 17, 64, 65, 130}[s.Choose(10, "size")]}
+	c.Arg = s.Choose(min(c.Size, 4)+1, "arg")
+	if c.Size > 4 && c.Arg == 4 {
+		c.Arg = c.Size // the far end
+	}
 	c.View = core.Pick(s, []string{"self", "GetValues-view", "AsArray-list"}, "view")
 	return c
 }
@@ -875,7 +879,11 @@ func execSelfCase(c selfCase, _ core.Source) (res core.Result) {
 				src = q
 			}
 			q2 := col.Queue[int](n).MakeFromSequence(src)
-			q2.AddValue(-1)
+			if uint(q2.GetSize()) < q2.GetCapacity() {
+				q2.AddValue(-1) // (on a full queue AddValue waits for a consumer)
+			} else {
+				q2.RemoveHead()
+			}
 			return fmt.Sprint(q.AsArray(), q2.AsArray())
 		}
 		panic(core.HarnessError{Msg: "unknown self op " + c.Op})
